@@ -5,6 +5,8 @@
 EXTENDS Workspace, TLC, Json
 CONSTANTS Forms, Dirs, Depths, Roots
 VARIABLE c
+\* form use_via_facade: the type is named through a crate of the workspace that only re-exports it (and has typeshared types of
+\* its own): the import still has to come from the file of the crate that DEFINES the type
 \* dup: a third crate defines a type with the same Rust identifier; dup_renamed: that one carries its own serde(rename)
 \* root: where the workspace lies: plain (no ancestor directory is called src) / under_src (the whole workspace lies below a
 \* directory called src, as in ~/src/project) / under_src_twice. The crate of a file does not depend on it (Workspace!CrateDirOf).
